@@ -36,12 +36,16 @@ try:
     meta['confirmed'] = bool(suite_ok and demo_fails and demo_passes)
 finally:
     subprocess.run(['git', '-C', '/repo', 'worktree', 'remove', '--force', wt])
-# run the checks against the patched /repo
+# run the checks against a scratch copy of /repo's working tree with the patch applied (VERIF_REPO), so that
+# /repo itself is never modified and concurrent checks of the unchanged tree are not disturbed
+import tempfile
 st = subprocess.run('git -C /repo status --porcelain', shell=True, stdout=subprocess.PIPE, text=True).stdout.strip()
 assert st == '', '/repo not clean: ' + st
-subprocess.check_call(['git', '-C', '/repo', 'apply', f'{dst}/patch.diff'])
+copy = tempfile.mkdtemp(prefix='seedrepo-', dir='/var/tmp')
+subprocess.check_call(f'rsync -a --exclude .git /repo/ {copy}/', shell=True)
+subprocess.check_call(f'cd {copy} && git init -q . && git apply {dst}/patch.diff', shell=True)
 results = {}
-# evidence and replays written while /repo is patched are not kept
+# evidence and replays written while checking the patched copy are not kept
 ev_save = '/var/tmp/seedtest-evidence'
 shutil.rmtree(ev_save, ignore_errors=True)
 shutil.copytree('/verif/evidence', ev_save)
@@ -49,12 +53,13 @@ rp_before = set(os.listdir('/verif/replays'))
 try:
     for c in checks:
         t0 = time.time()
-        r = subprocess.run(['/verif/check', c], stdout=subprocess.PIPE, stderr=subprocess.STDOUT, text=True)
+        r = subprocess.run(['/verif/check', c], stdout=subprocess.PIPE, stderr=subprocess.STDOUT, text=True, env=dict(os.environ, VERIF_REPO=copy))
         lines = [l for l in r.stdout.splitlines() if not l.startswith('NOTE') and not l.startswith('KNOWN-FINDING')]
-        results[c] = {'exit': r.returncode, 'wall_s': round(time.time() - t0, 1), 'output': lines[-3:]}
-        print(c, 'exit', r.returncode, '|'.join(lines[-2:])[:400])
+        keep = [l for l in lines if l.startswith(('VIOLATION', '  scenario=', 'OK ', 'HARNESS', 'BUILD'))] or lines[-3:]
+        results[c] = {'exit': r.returncode, 'wall_s': round(time.time() - t0, 1), 'output': [l[:1200] for l in keep[:3]]}
+        print(c, 'exit', r.returncode, '|'.join(keep[:2])[:400])
 finally:
-    subprocess.check_call(['git', '-C', '/repo', 'checkout', '--', '.'])
+    shutil.rmtree(copy, ignore_errors=True)
     shutil.rmtree('/verif/evidence', ignore_errors=True)
     shutil.copytree(ev_save, '/verif/evidence')
     shutil.rmtree(ev_save, ignore_errors=True)
